@@ -177,7 +177,7 @@ def run_property(prop: str, tier: str, seed: int, jobs: int = 16, only: str = No
 def write_evidence(prop, tier, seed, mod, obs, results, new_viol, known_hits, wall):
     asserts = [a for r in results for a in r.get("asserts", []) if a.get("index", -1) >= 0]
     twins = [a for r in results for a in r.get("asserts", []) if a.get("index", -1) < 0]
-    stats_keys = ("queries", "unsat", "sat", "unknown", "time", "lemma_queries", "lemma_time", "den_queries", "cvc5_queries", "cvc5_disagree")
+    stats_keys = ("queries", "unsat", "sat", "unknown", "time", "lemma_queries", "lemma_time", "den_queries", "cvc5_queries", "cvc5_disagree", "normalised")
     agg = {k: 0 for k in stats_keys}
     axioms: Dict[str, int] = {}
     max_q = 0.0
@@ -209,7 +209,7 @@ def write_evidence(prop, tier, seed, mod, obs, results, new_viol, known_hits, wa
     for hit, v in known_hits[:3]:
         samples.append({"known_finding": hit["what"], "obligation": v["name"], "model": v["model"], "observed": v["observed"]})
     cov = dict(
-        explanation=getattr(mod, "EXPLANATION", "") + " Deciding step: z3 verdict (unsat) on the negated property over the terms produced by concolic execution of the real deepali code under a TorchDispatchMode; sat models are replayed on the real code without the engine before being reported.",
+        explanation=getattr(mod, "EXPLANATION", "") + " Deciding step: z3 verdict (unsat) on the negated property over the terms produced by concolic execution of the real deepali code under a TorchDispatchMode; sat models are replayed on the real code without the engine before being reported. Before a query is sent, the division-free difference of the two sides is expanded into a canonical polynomial over its atoms under a time budget; when that is the zero polynomial the negated goal is `0 != 0` and is counted under solver.normalised instead of solver.unsat.",
         obligations=len(results),
         discharged=sum(1 for r in results if r["status"] == "proved"),
         assertions=n_assert,
